@@ -116,32 +116,38 @@ def op_history(c):
     time and again at the end of the history (to catch later mutation of an earlier result)."""
     import tempfile, os
     insts, out, kept = [], [], []
+    # every load of a history goes through ONE path whose file is rewritten each time: what load_file returns is what the
+    # file holds now
+    shared_dir = tempfile.mkdtemp(prefix='dznverif_hist_')
+    shared_path = os.path.join(shared_dir, 'Model.json')
+    try:
+        return _history(c, insts, out, kept, shared_path)
+    finally:
+        import shutil
+        shutil.rmtree(shared_dir, ignore_errors=True)
+
+
+def _history(c, insts, out, kept, shared_path):
+    import os
     for op in c['ops']:
         if op[0] == 'new':
             insts.append(DznJsonAst(None if op[1] is None else json.dumps(op[1])))
             out.append(None)
         elif op[0] == 'load':
-            fd, path = tempfile.mkstemp(suffix='.json')
-            with os.fdopen(fd, 'w') as f:
+            with open(shared_path, 'w') as f:
                 json.dump(op[2], f)
-            try:
-                r = insts[op[1]].load_file(path)
-                assert r is insts[op[1]]
-            finally:
-                os.unlink(path)
+            r = insts[op[1]].load_file(shared_path)
+            assert r is insts[op[1]]
             out.append(None)
         elif op[0] == 'load_bad':
             # a file that is not JSON at all (truncated): load_file must not return as if the file had been loaded
-            fd, path = tempfile.mkstemp(suffix='.json')
-            with os.fdopen(fd, 'w') as f:
+            with open(shared_path, 'w') as f:
                 f.write(op[2])
             try:
-                insts[op[1]].load_file(path)
+                insts[op[1]].load_file(shared_path)
                 out.append(['load-returned'])
             except Exception as e:  # noqa
                 out.append(['load-raised', type(e).__name__])
-            finally:
-                os.unlink(path)
         elif op[0] == 'edit':
             # the caller edits the decoded document its parser holds (public property `ast`): keep the first element only
             a = insts[op[1]].ast
